@@ -62,6 +62,7 @@ class Inliner:
         self.in_progress = set()
         self.inlined_into = {}      # helper id -> set of callers it was inlined into
         self.kept_calls = {}        # helper id -> number of call sites left as calls (recursion / indirect / size)
+        self.closure_inlined = {}   # closure id -> set of functions into which an invocation of it was inlined
 
     def helper(self, fid):
         f = self.raw.get(fid)
@@ -75,13 +76,44 @@ class Inliner:
                 return c if self.helper(c) else None
         return None
 
+    CLOSURE_CALL = ('std::ops::FnOnce::call_once', 'std::ops::FnMut::call_mut', 'std::ops::Fn::call')
+
+    def closure_target(self, body, t, helper_origin):
+        """A call `f(args)` on a local that, inside this (already partly inlined) body, holds a closure of the crate
+        defined by a known aggregate (a local closure invoked directly, or a closure handed to an inlined helper as a
+        parameter): returns (closure id, alias locals)."""
+        if t['k'] != 'call' or t['callee'] not in self.CLOSURE_CALL:
+            return None
+        a0 = t['args'][0] if t['args'] else None
+        if not a0 or a0['k'] not in ('copy', 'move') or a0['place']['p']:
+            return None
+        L = a0['place']['l']
+        names = [L]
+        for _ in range(6):
+            defs = [st['rv'] for b in body['blocks'] if not b['cleanup'] for st in b['stmts'] if not st['lhs']['p'] and st['lhs']['l'] == L]
+            cdefs = [1 for b in body['blocks'] if not b['cleanup'] and b['term']['k'] == 'call' and b['term'].get('dest') and not b['term']['dest']['p'] and b['term']['dest']['l'] == L]
+            if len(defs) != 1 or cdefs:
+                return None
+            rv = defs[0]
+            if rv['k'] == 'agg' and rv.get('agg') == 'closure':
+                cid = rv.get('closure')
+                return (cid, names) if cid in self.raw and self.raw[cid]['blocks'] else None
+            if rv['k'] == 'use' and rv['a']['k'] in ('copy', 'move') and not rv['a']['place']['p']:
+                L = rv['a']['place']['l']
+            elif rv['k'] == 'ref' and not rv['place']['p']:
+                L = rv['place']['l']
+            else:
+                return None
+            names.append(L)
+        return None
+
     def get(self, fid):
         if fid in self.done:
             return self.done[fid]
         d = self.raw[fid]
         if fid in self.in_progress:
             return d
-        if not any(self.target_of(b['term']) for b in d['blocks'] if not b['cleanup']):
+        if not any(self.target_of(b['term']) or (b['term']['k'] == 'call' and b['term']['callee'] in self.CLOSURE_CALL) for b in d['blocks'] if not b['cleanup']):
             self.done[fid] = d
             return d
         self.in_progress.add(fid)
@@ -92,13 +124,38 @@ class Inliner:
             b = new['blocks'][bi]
             t = b['term']
             c = None if b['cleanup'] else self.target_of(t)
+            clos = None
+            if not c and not b['cleanup']:
+                clos = self.closure_target(new, t, b.get('inl'))
+                if clos and clos[0] != fid and clos[0] not in self.in_progress:
+                    c = clos[0]
+                else:
+                    clos = None
             if c and c != fid and c not in self.in_progress and len(new['blocks']) < MAX_BLOCKS:
                 cd = self.get(c)
                 loff, boff, poff = len(new['locals']), len(new['blocks']), len(new['promoted'])
                 new['locals'] += copy.deepcopy(cd['locals'])
                 new['promoted'] += copy.deepcopy(cd['promoted'])
                 line = (t.get('span') or {}).get('line', d['span']['line'])
-                for i, a in enumerate(t['args']):
+                if clos:
+                    # closure body: _1 = the closure (by value or by reference, as the body expects), _2.. = the
+                    # components of the argument tuple ("rust-call" ABI)
+                    a0 = t['args'][0]
+                    want_ref = cd['locals'][1]['ty'].startswith('&')
+                    have_ref = new['locals'][a0['place']['l']]['ty'].startswith('&')
+                    if want_ref and not have_ref:
+                        b['stmts'].append({'lhs': {'l': loff + 1, 'p': []}, 'rv': {'k': 'ref', 'mut': 'mut ' in cd['locals'][1]['ty'][:20], 'place': a0['place']}, 'line': line, 'inl': c})
+                    elif have_ref and not want_ref:
+                        b['stmts'].append({'lhs': {'l': loff + 1, 'p': []}, 'rv': {'k': 'use', 'a': {'k': 'copy', 'place': {'l': a0['place']['l'], 'p': ['deref']}}}, 'line': line, 'inl': c})
+                    else:
+                        b['stmts'].append({'lhs': {'l': loff + 1, 'p': []}, 'rv': {'k': 'use', 'a': a0}, 'line': line, 'inl': c})
+                    tup = t['args'][1] if len(t['args']) > 1 else None
+                    for i in range(cd['argc'] - 1):
+                        if tup and tup['k'] in ('copy', 'move'):
+                            src = {'k': 'move', 'place': {'l': tup['place']['l'], 'p': list(tup['place']['p']) + [{'f': str(i), 'adt': '', 'i': i}]}}
+                            b['stmts'].append({'lhs': {'l': loff + 2 + i, 'p': []}, 'rv': {'k': 'use', 'a': src}, 'line': line, 'inl': c})
+                    self.closure_inlined.setdefault(c, set()).add(fid)
+                for i, a in enumerate(t['args'] if not clos else []):
                     b['stmts'].append({'lhs': {'l': loff + 1 + i, 'p': []}, 'rv': {'k': 'use', 'a': a}, 'line': line, 'inl': c})
                 for cb in cd['blocks']:
                     nb = {'cleanup': cb['cleanup'], 'stmts': _remap(cb['stmts'], loff, boff, poff), 'term': None, 'inl': c}
@@ -113,7 +170,8 @@ class Inliner:
                     new['blocks'].append(nb)
                 b['term'] = {'k': 'goto', 'target': boff, 'inl_call': c, 'span': t.get('span')}
                 new['inlined'].append(c)
-                self.inlined_into.setdefault(c, set()).add(fid)
+                if not clos:
+                    self.inlined_into.setdefault(c, set()).add(fid)
             elif c:
                 self.kept_calls[c] = self.kept_calls.get(c, 0) + 1
             bi += 1
@@ -123,4 +181,40 @@ class Inliner:
 
     def run(self):
         out = [self.get(fid) for fid in self.raw]
+        # closures whose every use was an inlined invocation: analysed only inside their callers
+        self.closures_fully_inlined = set()
+        for cid in self.closure_inlined:
+            ok = True
+            for body in out:
+                al = set()
+                for b in body['blocks']:
+                    for st in b['stmts']:
+                        if st['rv']['k'] == 'agg' and st['rv'].get('closure') == cid and not st['lhs']['p']:
+                            al.add(st['lhs']['l'])
+                if not al:
+                    continue
+                changed = True
+                while changed:
+                    changed = False
+                    for b in body['blocks']:
+                        for st in b['stmts']:
+                            if st['lhs']['p'] or st['lhs']['l'] in al:
+                                continue
+                            rv = st['rv']
+                            src = None
+                            if rv['k'] == 'use' and rv['a']['k'] in ('copy', 'move') and not rv['a']['place']['p']:
+                                src = rv['a']['place']['l']
+                            elif rv['k'] == 'ref' and not rv['place']['p']:
+                                src = rv['place']['l']
+                            if src in al:
+                                al.add(st['lhs']['l'])
+                                changed = True
+                for b in body['blocks']:
+                    t = b['term']
+                    if b['cleanup'] or t['k'] != 'call':
+                        continue
+                    if any(a['k'] in ('copy', 'move') and a['place']['l'] in al for a in t['args']):
+                        ok = False
+            if ok:
+                self.closures_fully_inlined.add(cid)
         return out
